@@ -41,9 +41,30 @@ fn force_ans<U: User, E: Engine<U>>(x: LTerm<U, E>) -> Goal<U, E> {
                 ]);
                 g.solve(solver, state)
             },
+            (LTermInner::<U, E>::Compound(compound), _) => {
+                // The fields of a compound term are labeled like the elements of a list.
+                let mut fields: Vec<LTerm<U, E>> = vec![];
+                compound_fields(compound.as_ref(), &mut fields);
+                let goals: Vec<Goal<U, E>> = fields.into_iter().map(|t| force_ans(t)).collect();
+                crate::operator::conj::Conj::from_vec(goals).solve(solver, state)
+            },
             (_, _) => solver.start(&Goal::Succeed, state),
         }
     })
+}
+
+/// Collects the terms found in the fields of a compound object.
+#[cfg(feature = "clpfd")]
+fn compound_fields<U: User, E: Engine<U>>(
+    compound: &dyn crate::compound::CompoundObject<U, E>,
+    fields: &mut Vec<LTerm<U, E>>,
+) {
+    for child in compound.children() {
+        match child.as_term() {
+            Some(t) => fields.push(t.clone()),
+            None => compound_fields(child, fields),
+        }
+    }
 }
 
 #[cfg(feature = "clpfd")]
